@@ -29,6 +29,7 @@ PLAIN, LT, GT, AMP, QUOT, APOS, CTRL, NONASCII, ASTRAL = range(1, 10)
 SLASH, EQ, SP, LF, SEMI, QM, FF, BOM, HASH = range(10, 19)
 PLUS, TILDE, SI, SO = 19, 98, 96, 97
 PCT, LBRACE, RBRACE, FMT = 32, 33, 34, 35
+WIDE = 36
 GARBAGE = 99
 WORDS = {20: "pages", 21: "page", 22: "textbox", 23: "textline", 24: "text", 25: "figure", 26: "image", 27: "line",
          28: "rect", 29: "curve", 30: "layout", 31: "textgroup",
@@ -39,9 +40,9 @@ SINGLE = {LT: "<", GT: ">", AMP: "&", QUOT: '"', APOS: "'", SLASH: "/", EQ: "=",
           FF: "\f", BOM: "﻿", HASH: "#"}
 SINGLE.update({PLUS: "+", TILDE: "~", PCT: "%", LBRACE: "{", RBRACE: "}"})
 # several concrete members per class (the replay also checks that class members are treated alike)
-REPS = [{PLAIN: "a", CTRL: "\x01", NONASCII: "\xe9", ASTRAL: "\U0001F600", FMT: "s"},
-        {PLAIN: "Z", CTRL: "\x1f", NONASCII: "中", ASTRAL: "\U0001D11E", FMT: "d"},
-        {PLAIN: "7", CTRL: "\x0b", NONASCII: "\xff", ASTRAL: "\U00010348", FMT: "0"}]
+REPS = [{PLAIN: "a", CTRL: "\x01", NONASCII: "\xe9", ASTRAL: "\U0001F600", FMT: "s", WIDE: "α"},
+        {PLAIN: "Z", CTRL: "\x1f", NONASCII: "中", ASTRAL: "\U0001D11E", FMT: "d", WIDE: "中"},
+        {PLAIN: "7", CTRL: "\x0b", NONASCII: "\xff", ASTRAL: "\U00010348", FMT: "0", WIDE: "€"}]
 F_ID, F_BBOX, F_ROTATE, F_CS, F_NCOLOUR, F_SIZE, F_LINEWIDTH, F_PTS, F_WIDTH, F_HEIGHT = range(10)
 E_PAGES, E_PAGE, E_TEXTBOX, E_TEXTLINE, E_TEXT, E_FIGURE, E_IMAGE, E_LINE, E_RECT, E_CURVE, E_LAYOUT, E_TEXTGROUP = range(20, 32)
 A_ID, A_BBOX, A_ROTATE, A_FONT, A_CS, A_NCOLOUR, A_SIZE, A_NAME, A_LINEWIDTH, A_PTS, A_WMODE, A_SRC, A_WIDTH, A_HEIGHT, \
@@ -244,11 +245,11 @@ def model_units_shift(T, conv, strip, imgw, dev, e):
     out = []
     sh = False
     for _, b in write_pieces(T, conv, strip, imgw, dev):
-        if used != e or ("AsciiBypass" in dev and all(c not in (NONASCII, ASTRAL, BOM, GARBAGE) for c in b)):
+        if used != e or ("AsciiBypass" in dev and all(c not in (NONASCII, WIDE, ASTRAL, BOM, GARBAGE) for c in b)):
             out += [c + 1000 * used for c in b]
             continue
         for c in b:
-            sh2 = c in (NONASCII, ASTRAL)
+            sh2 = c in (NONASCII, WIDE, ASTRAL)
             if sh2 and not sh:
                 out.append(SI + 1000 * e)
             elif sh and not sh2:
@@ -480,13 +481,17 @@ def build_direct(T, con, size_of=None, line_y=False, page_size=None):
     return pages, nums
 
 
-def run_converter(pages, conv, sink, codec, strip, imgw):
-    """the real converter over real LTPage objects -> what the sink holds (str or bytes)"""
+TEXT_SINK_CODEC = {0: None, 1: "utf-8", 3: "latin-1", 7: "ascii"}      # tNONE, tUTF8, tLATIN1, tASCII of ConvOps.tla
+
+
+def run_converter(pages, conv, sink, codec, strip, imgw, text_codec="utf-8"):
+    """the real converter over real LTPage objects -> what the sink holds (str or bytes).
+    text_codec: the `codec` argument TextConverter is given together with a text sink (XMLConverter insists on none)"""
     rm = PDFResourceManager()
     fp = io.StringIO() if sink == "text" else io.BytesIO()
     cod = None if sink == "text" else codec
     if conv == "text":
-        dev = TextConverter(rm, fp, codec=cod or "utf-8", laparams=None)
+        dev = TextConverter(rm, fp, codec=(text_codec if sink == "text" else (cod or "utf-8")), laparams=None)
     else:
         dev = XMLConverter(rm, fp, codec=cod, laparams=None, imagewriter=StubImageWriter() if imgw else None, stripcontrol=strip)
     for p in pages:
